@@ -673,6 +673,24 @@ def run_C17(rep, tier, rng):
         why = lalr_tables_match(G, start, action, goto, nstates)
         if why:
             rep.violation("emitted tables are not the LALR(1) tables of the grammar: " + why, {"label": label, "source": text})
+    if tier == "quick":
+        # the large-alphabet size grammars (> 256 terminals / nonterminals) against the specification-side automaton
+        # only: the model takes most of a minute on each, so the model comparison for them is in the thorough tier
+        big = [(l, it, gen.render(it), gen.to_oracle(it)) for l, it in gen.size_grammars(thorough=True) if l not in {x[0] for x in pool}]
+        blines = kv.run_impl("stages", corr.stage_requests([t for _, _, t, _ in big]))
+        for (label, items, text, G), i in zip(big, blines):
+            ip = corr.split_stages(i) if i.startswith("(stages") else {}
+            if "text" not in ip:
+                rep.violation(f"size grammar gave outcome {corr.outcome(ip) if ip else i[:80]}", {"label": label, "source": text[:3000]})
+                continue
+            emitted = kv.unhexs(kv.parse_sexp(ip["text"])[1])
+            start, terms, nts, action, goto, nstates = tables_from_text(emitted)
+            if terms != G["terminals"] or nts != G["nonterminals"]:
+                rep.violation("table columns are not the declared terminals / nonterminals in declaration order", {"label": label, "source": text[:3000]})
+                continue
+            why = lalr_tables_match(G, start, action, goto, nstates)
+            if why:
+                rep.violation("emitted tables are not the LALR(1) tables of the grammar: " + why, {"label": label, "source": text[:3000]})
     report_disagreements(rep, dis, "stages (machine, table, emitted rows)", "C17_table_cells / C17_partial")
     return {"evaluations": len(pool), "distinct_nontrivial": ok,
             "rule": "same pool as C04; non-trivial = accepted grammars; tables read back from the emitted text and compared, modulo the renumbering found by traversal from the start state, with the tables of the specification-side LALR(1) automaton",
@@ -998,6 +1016,8 @@ def run_C01(rep, tier, rng):
     # third grammar in the thorough tier, every 150th in the quick tier
     hsmall = {}
     small = small_scope(3 if tier == "thorough" else 150)
+    if tier == "quick":
+        small += [(l, it, gen.render(it), gen.to_oracle(it)) for l, it in gen.size_grammars(thorough=True)]
     slines = kv.run_impl("stages", corr.stage_requests([t for _, _, t, _ in small]))
     validated_small = validate_automata(rep, [(lab, t, G, l) for (lab, _, t, G), l in zip(small, slines) if l.startswith("(stages")], halts=hsmall)
     ev, acc, dis = 0, 0, []
